@@ -349,6 +349,9 @@ class BackwardHooks(Hooks):
             if nm == "flatten":
                 return Cat("flat", list(args[0]))
             if nm == "flat_to_shape":
+                src = args[0]
+                if isinstance(src, Cat) and src.kind == "flat" and len(src.parts) == len(args[1]):
+                    return list(src.parts)          # unpacking what flatten packed (no solve in between): the blocks themselves
                 self.k += 1
                 n_blocks = len(args[1])
                 return [nf.sym(f"B{self.k}_{j}") for j in range(n_blocks)]
@@ -392,6 +395,8 @@ def _indexable(name, T):
         raise AnalysisError(f"unexpected index {idx!r} into {name}", where=astq.loc(fi, node))
     o = Obj(name, getitem_hook=getitem)
     o.attrs["size"] = Intrinsic("size", lambda it, a, k, n, f: Fraction(T))
+    o.attrs["__len__"] = Intrinsic("len", lambda it, a, k, n, f: Fraction(T))
+    o.attrs["shape"] = (Fraction(T),)
     return o
 
 
@@ -651,3 +656,36 @@ _run_c09h = run
 def run(ctx):
     _run_c09h(ctx)
     ctx.guard(r09_8)
+
+
+# ------------------------------------------------------------------------------------------------ R09.9
+def r09_9(ctx):
+    """'for losses depending on any subset of output times' includes a single output time: sdeint and the forward pass accept
+    it, so the backward pass must return dL/dy0 = grad_ys[0] (there is no interval to integrate the adjoint over), the
+    incoming cotangents of the extras, and a zero per adjoint parameter."""
+    rep, model = ctx.rep, ctx.model
+    rep.rule("R09.9", "a single output time: the backward pass makes no adjoint solve and returns grad_ys[0] for y0")
+    bwd = model.func(ADJOINT, "_SdeintAdjointMethod.backward")
+    rep.analysed(bwd)
+    for saved in (False, True):
+        r = eval_backward(model, 1, saved)
+        tag = "extras-saved" if saved else "plain"
+        if r["err"] is not None:
+            rep.fail("R09.9", astq.loc(bwd), f"{bwd.key}::R09.9::{tag}",
+                     f"with one output time the backward pass does not return: {str(r['err'])[:200]} (the augmented state is "
+                     f"still the flat tensor it was packed into, because no adjoint piece unpacked it)")
+            continue
+        tail = [x for x in (r["out"] or []) if x is not None]
+        ok = not r["hooks"].applies and len(tail) >= 2 and isinstance(tail[0], Rat) and nf.equal(tail[0], nf.sym("grad_ys[0]"))
+        rep.check(ok, "R09.9", astq.loc(bwd), f"{bwd.key}::R09.9::{tag}",
+                  f"with one output time the backward pass makes {len(r['hooks'].applies)} adjoint solve(s) and returns "
+                  f"`{tail[0] if tail else None}` for y0; expected no solve and grad_ys[0]", "dL/dy0 = grad_ys[0]")
+    ctx.floor("R09.9", 2)
+
+
+_run_c09i = run
+
+
+def run(ctx):
+    _run_c09i(ctx)
+    ctx.guard(r09_9)
